@@ -343,7 +343,19 @@ pub fn gen_req(r: &mut Rng, tok: &str, o: &ReqOpts) -> Value {
         path = "/metadata/instance".to_string();
     }
     let q = *r.pick(&QUERIES);
-    let target = if q.is_empty() { path } else { format!("{}?{}", path, q) };
+    let mut target = if q.is_empty() { path } else { format!("{}?{}", path, q) };
+    let mut method = method;
+    // the two signature-exempt uploads (and near misses of them) are a fixed share of every workload
+    if r.chance(1, 8) {
+        let (m, t) = match r.below(6) {
+            0 | 1 => ("PUT", flip_case(r, "/vmAgentLog")),
+            2 | 3 => ("POST", flip_case(r, "/machine/?comp=telemetrydata")),
+            4 => ("POST", "/vmAgentLog".to_string()),
+            _ => ("PUT", "/machine/?comp=telemetrydata".to_string()),
+        };
+        method = m;
+        target = t;
+    }
     let mut hs = if o.with_resp && r.chance(1, 3) { gen_headers_dup(r, o.host) } else { gen_headers(r, o.host) };
     if o.spoof {
         for _ in 0..r.below(4) {
@@ -464,6 +476,12 @@ pub fn gen_proxy(seed: u64, prop: &str, tier: &str) -> Value {
         }
         if upstream_faults {
             gen_upstream_faults(&mut r, &mut steps);
+            if prop == "C14" {
+                // transparency under a dying upstream: answers cut inside their body
+                for _ in 0..r.below(3) {
+                    steps.push(json!({"t": "host_fault", "kind": "client", "fault": {"f": "cut", "n": 120 + r.below(9000)}}));
+                }
+            }
         }
         steps.push(json!({"t": "clients", "conns": conns}));
         if upstream_faults {
